@@ -76,9 +76,10 @@ theorem decodeMetadataHeader_eq (v2 : Bool) : decodeMetadataHeader v2 =
   simp only [jp_eq]
 
 theorem readTopics_succ (n : Nat) (acc : List (Bytes × List Int)) : readTopics (n + 1) acc =
-    (readString >>= fun name => readI32 >>= fun numPartitions => remaining >>= fun avail =>
-      if numPartitions < 0 ∨ numPartitions.toNat * 4 > avail then failD
-      else allocD (4 * numPartitions.toNat) >>= fun _ =>
+    (readString >>= fun name => readI32 >>= fun numPartitions =>
+      if numPartitions < 0 then failD
+      else remaining >>= fun avail =>
+        allocD (4 * min numPartitions.toNat (avail / 4)) >>= fun _ =>
         readPartitions numPartitions.toNat >>= fun ps => readTopics n (mapSet name ps acc)) := rfl
 
 theorem readPartitions_succ (n : Nat) : readPartitions (n + 1) =
@@ -86,8 +87,7 @@ theorem readPartitions_succ (n : Nat) : readPartitions (n + 1) =
 
 theorem decodeMemberAssignmentV0_eq : decodeMemberAssignmentV0 =
     (readI32 >>= fun numTopics => remaining >>= fun avail =>
-      if numTopics < 0 ∨ numTopics.toNat > avail then failD
-      else allocD (mapEntryCost * numTopics.toNat) >>= fun _ =>
+      allocD (mapEntryCost * min numTopics.toNat avail) >>= fun _ =>
         readTopics numTopics.toNat [] >>= fun topics =>
         readI32 >>= fun userDataLen =>
         whenD (userDataLen > 0) (nextN userDataLen.toNat) >>= fun _ => pure topics) := by
